@@ -417,51 +417,55 @@ theorem stream_roundtrip : ∀ (evs : List Ev) (st : EncSt), evs.all simple = tr
           rw [ih3 fuel (by simp at hf; omega)]
           simp
 
+theorem encodeFrom_endDoc : ∀ (l : List Ev) (st : EncSt), l.all simple = true → st.trySmall = false →
+    encodeFrom st (l ++ [Ev.endDoc]) = ((encodeFrom st l).1, none, st)
+  | [], st, _, hts => by simp [encodeFrom, encodeEv, hts]
+  | e :: es, st, hall, hts => by
+    simp only [List.all_cons, Bool.and_eq_true] at hall
+    obtain ⟨bs, henc⟩ := encodeEv_simple st e hall.1
+    simp [encodeFrom, henc, encodeFrom_endDoc es st hall.2 hts]
+
+/-- the bytes of a whole document of fragment events -/
+theorem encode_doc (evs : List Ev) (h : evs.all simple = true) :
+    encode (Ev.beginDoc :: Ev.version 0 :: (evs ++ [Ev.endDoc])) =
+      (u8 signature :: (uleb 0 ++ (encodeFrom {} evs).1), none) := by
+  simp [encode, encodeFrom, encodeEv, encodeFrom_endDoc evs {} h rfl]
+
+/-- what the decoder delivers for them -/
+theorem decode_encode_doc (evs : List Ev) (h : evs.all simple = true) :
+    decode (encode (Ev.beginDoc :: Ev.version 0 :: (evs ++ [Ev.endDoc]))).1 =
+      (Ev.beginDoc :: Ev.version 0 :: (evs.flatMap renorm ++ [Ev.endDoc]), none) := by
+  obtain ⟨_, _, h3⟩ := stream_roundtrip evs {} h
+  rw [encode_doc evs h]
+  simp only [decode]
+  have hsig : ¬ (u8 signature).toNat ≠ signature := by decide
+  simp only [hsig, if_false]
+  have hv : readUleb (2 ^ 64 - 1) (uleb 0 ++ (encodeFrom {} evs).1) = .ok (0, (encodeFrom {} evs).1) := by
+    unfold readUleb
+    rw [unuleb_uleb 0 (by decide)]
+    simp
+  simp only [hv]
+  rw [h3 _ (Nat.le_refl _)]
+  simp
+
 /-- a complete document of fragment events round-trips: same data, nothing lost, nothing added -/
 theorem document_roundtrip (evs : List Ev) (h : evs.all simple = true) :
     let doc := Ev.beginDoc :: Ev.version 0 :: (evs ++ [Ev.endDoc])
     (encode doc).2 = none ∧
     ∃ back, decode (encode doc).1 = (back, none) ∧ canon false back = canon false doc := by
   intro doc
-  obtain ⟨h1, h2, h3⟩ := stream_roundtrip evs {} h
-  -- the encoder: header byte, version, the stream, and nothing for the end of the document
-  have hend : encodeFrom ({} : EncSt) (evs ++ [Ev.endDoc]) = ((encodeFrom {} evs).1, none, {}) := by
-    have gen : ∀ (l : List Ev) (st : EncSt), l.all simple = true → st.trySmall = false →
-        encodeFrom st (l ++ [Ev.endDoc]) = ((encodeFrom st l).1, none, st) := by
-      intro l
-      induction l with
-      | nil => intro st _ hts; simp [encodeFrom, encodeEv, hts]
-      | cons e es ih =>
-        intro st hall hts
-        simp only [List.all_cons, Bool.and_eq_true] at hall
-        obtain ⟨bs, henc⟩ := encodeEv_simple st e hall.1
-        simp [encodeFrom, henc, ih st hall.2 hts]
-    exact gen evs {} h rfl
-  have henc : encode doc = (u8 signature :: (uleb 0 ++ (encodeFrom {} evs).1), none) := by
-    simp [encode, doc, encodeFrom, encodeEv, hend]
-  refine ⟨by rw [henc], Ev.beginDoc :: Ev.version 0 :: (evs.flatMap renorm ++ [Ev.endDoc]), ?_, ?_⟩
-  · rw [henc]
-    simp only [decode]
-    have hsig : ¬ (u8 signature).toNat ≠ signature := by decide
-    simp only [hsig, if_false]
-    have hv : readUleb (2 ^ 64 - 1) (uleb 0 ++ (encodeFrom {} evs).1) = .ok (0, (encodeFrom {} evs).1) := by
-      unfold readUleb
-      rw [unuleb_uleb 0 (by decide)]
-      simp
-    simp only [hv]
-    rw [h3 _ (Nat.le_refl _)]
-    simp
-  · -- same data: by induction over the stream, event by event
-    have hbody : ∀ (l : List Ev), l.all simple = true →
-        canon false (l.flatMap renorm ++ [Ev.endDoc]) = canon false (l ++ [Ev.endDoc]) := by
-      intro l
-      induction l with
-      | nil => intro _; rfl
-      | cons e es ih =>
-        intro hall
-        simp only [List.all_cons, Bool.and_eq_true] at hall
-        simp only [List.flatMap_cons, List.append_assoc, List.cons_append]
-        exact canon_renorm e hall.1 _ _ (clean_renorm es hall.2) (ih hall.2)
-    simp [canon, doc, hbody evs h]
+  refine ⟨by simp only [doc]; rw [encode_doc evs h], _, decode_encode_doc evs h, ?_⟩
+  -- same data: by induction over the stream, event by event
+  have hbody : ∀ (l : List Ev), l.all simple = true →
+      canon false (l.flatMap renorm ++ [Ev.endDoc]) = canon false (l ++ [Ev.endDoc]) := by
+    intro l
+    induction l with
+    | nil => intro _; rfl
+    | cons e es ih =>
+      intro hall
+      simp only [List.all_cons, Bool.and_eq_true] at hall
+      simp only [List.flatMap_cons, List.append_assoc, List.cons_append]
+      exact canon_renorm e hall.1 _ _ (clean_renorm es hall.2) (ih hall.2)
+  simp [canon, doc, hbody evs h]
 
 end CE.Cbe
